@@ -43,6 +43,7 @@ type Term struct {
 	id     int
 	size   int
 	h1, h2 uint64 // structural hash (lazy)
+	alias  *Term  // printed instead of this term (opaque stand-in, see intToFloat)
 	hashed bool
 }
 
@@ -560,6 +561,9 @@ func (p *printer) str(t *Term) string {
 		}
 	case "var":
 		return t.raw
+	}
+	if t.alias != nil {
+		return p.str(t.alias)
 	}
 	var name string
 	if t.size > 6 {
